@@ -21,9 +21,9 @@ CHECKS = {
         "note": "trusted: z3, symx, the recipe oracle, Python's dataclass field ordering rule (re-implemented in models/classgen.flatten); classes beyond the bound are outside the claim",
     },
     "C03": {
-        "engine": "symx (engine P)",
-        "technique": "bounded symbolic exploration of operation histories on the real registry code (symx decision tree over operation/receiver/argument selectors, lazy symbolic `strict`) with a ghost-state oracle checked after every step",
-        "text": "Every history of K public operations (construct, parent, duplicate, dataclasses.replace, ASTNode.replace succeeding/raising, detach, detach_self on live or stale receivers, as_dict/as_obj, drop) within the bound, under ID_DIGEST_SIZE 1 and 8, keeps the registry equal to the ghost state after every step. For selector-only harnesses the all-paths verdict coincides with exhaustive bounded enumeration of histories (stated in DESIGN.md section 6).",
+        "engine": "symx (engine P) + CrossHair (engine X)",
+        "technique": "bounded symbolic exploration of operation histories on the real registry code (symx decision tree over operation/receiver/argument selectors, lazy symbolic `strict`) with a ghost-state oracle checked after every step; CrossHair symbolic execution (z3) of the real _get_next_unique_id (both node families) against an arbitrary symbolic set of registered collision suffixes",
+        "text": "Every history of K public operations (construct, parent, duplicate, dataclasses.replace, ASTNode.replace succeeding/raising, detach, detach_self on live or stale receivers, as_dict/as_obj, drop) within the bound, under ID_DIGEST_SIZE 1 and 8, keeps the registry equal to the ghost state after every step; payloads may outlive their node and be read back while a node of an unrelated class holds the id. X: for every set of up to 3 registered suffixes (1..5, gaps included) the id handed out is free and is the base or its least free suffix. For selector-only harnesses the all-paths verdict coincides with exhaustive bounded enumeration of histories (stated in DESIGN.md section 6).",
         "design_ref": "DESIGN.md section 4, C03",
         "note": "trusted: symx, ghost-state oracle (appendix A.5), CPython refcounting; bounds: K<=4 all / K=5 partially (quick), K<=5 all / K=6 partially (thorough), <=4 handles, two node classes",
     },
@@ -71,15 +71,15 @@ CHECKS = {
     },
     "C02": {
         "engine": "symx (engine P)",
-        "technique": "bounded symbolic exploration (symx selectors) of tree pairs whose origins differ at one chosen position, against the structural + position-wise origin oracle",
-        "text": "For every base tree within the bound, every position, every pair of origins from a pool of 8 (incl. equal-but-distinct copies), same-position and moved variants: ==, its mirror, != agree with the oracle, hash is constant; all small pairs; 22^3 triples for transitivity; foreign comparands. Selectors only: the all-paths verdict equals bounded enumeration (DESIGN.md section 6).",
+        "technique": "symbolic execution of the real __eq__ with one unbounded z3 integer origin key per position (user-defined origins whose equality is key equality: z3 decides every origin comparison under the path condition, the oracle verdict is the conjunction term, symmetry / transitivity follow by integer reasoning); plus bounded exploration (symx selectors) of tree pairs over a pool of real origins, value pairs, shared objects and operation histories for the hash clause",
+        "text": "For every base tree within the bound, every position, every pair of origins from a pool of 8 (incl. equal-but-distinct copies), same-position and moved variants: ==, its mirror, != agree with the oracle, hash is constant; all small pairs; 22^3 triples for transitivity; foreign comparands. Data-symbolic: for every tree shape in the bound and EVERY assignment of integer origin keys to the positions of x, y (and z), == / mirrored == / != agree with 'equal keys at every position' and the relation is transitive. hash(node), self-equality and set / dict membership survive every history of 1-2 operations of C10's alphabet. The pool families are selectors only (DESIGN.md section 6).",
         "design_ref": "DESIGN.md section 4, C02",
         "note": "trusted: symx, structural oracle of C01, origin key equality; origin integers cannot stay symbolic (ids render origin.fqn at construction) - origin equality over all integers is C15",
     },
     "C04": {
-        "engine": "symx (engine P)",
-        "technique": "bounded exploration (symx selectors) of tree x value variant x outside twins x format x source optimisation x liveness-at-read-time, against a snapshot taken before serialization",
-        "text": "Every combination within the bound round-trips position by position (identity for live originals, otherwise class/id/content_id/all property values/origin equal, registered, singletons restored, shared nodes shared again), for dict, JSON, MessagePack and YAML, with and without index-based sources, with all / none / each single subtree of the originals alive. Selectors only; values are pool values because no engine keeps data symbolic through the C serializers.",
+        "engine": "symx (engine P) + CrossHair (engine X)",
+        "technique": "bounded exploration (symx selectors) of tree x value variant x outside twins x prehistory x format x source optimisation x liveness-at-read-time, against a snapshot taken before serialization; CrossHair symbolic execution (z3) of as_dict / as_obj round trips of code points, ranges, code origins (unbounded symbolic integers) and XML origins (symbolic path strings) through pyoak's hooks and mashumaro's generated code",
+        "text": "Every combination within the bound round-trips position by position (identity for live originals, otherwise class/id/content_id/all property values/origin equal, registered, singletons restored, shared nodes shared again), for dict, JSON, MessagePack and YAML, with and without index-based sources, with all / none / each single subtree of the originals alive, also after an earlier equal version of the tree was written. X: code points, code ranges, code origins and XML origins round-trip through the dict front-end for ALL integers / all paths up to 4 characters. Node values are pool values because no engine keeps data symbolic through the digest and the C serializers.",
         "design_ref": "DESIGN.md section 4, C04",
         "note": "trusted: symx, snapshot oracle; registry clearing stands in for a fresh process",
     },
@@ -112,8 +112,8 @@ CHECKS = {
         "note": "trusted: symx, recipe oracle, experimental id oracle (appendix A.5)",
     },
     "C16": {
-        "engine": "symx (engine P)",
-        "technique": "bounded symbolic execution of the real (de)serialization front-ends with every option a lazy symbolic boolean consulted per nested object and a lazy symbolic fault bit per nested hooked object (fault schedule), selectors for call kind / dialect / input corruption",
+        "engine": "symx (engine P) + CrossHair (engine X)",
+        "technique": "CrossHair obligations with symbolic SKIP_CLASS / SORT_KEYS and unbounded positions over the nested mappings of a range / a code origin; bounded symbolic execution of the real (de)serialization front-ends with every option a lazy symbolic boolean consulted per nested object and a lazy symbolic fault bit per nested hooked object (fault schedule), selectors for call kind / dialect / input corruption",
         "text": "For every call kind (4 serializers, 4 deserializers), dialect, corruption and EVERY value of the option bits and fault bits that the real code consults: nested mappings obey the options in force, and after the call - returned or raised - the option slots are clear and a default as_dict() equals the baseline. quick: one option-carrying call + default call; thorough: two.",
         "design_ref": "DESIGN.md section 4, C16",
         "note": "trusted: symx, z3, output walker; YAML key order not checked (the dumper sorts itself)",
